@@ -118,6 +118,9 @@ type area struct {
 	optOf   map[string]string              // nil-able variant of a location type: "*Field|nil" -> "*Field" (values are wrapped in Some)
 	eqs     map[string]string              // further types compared with == : Go type -> boolean equality
 	shadow  bool                           // `:=` in a nested scope may shadow a name that is never assigned with `=`
+	wderefs map[string]wderef              // pointers to a slice kept in the world: *p reads it, *p = append(*p, x) extends it
+	fresh   map[string]int                 // function -> index of a pointer argument that every caller in the package must
+	                                       // pass as a fresh composite literal &T{...} (precondition of the store discipline)
 }
 
 type recField struct {
@@ -849,6 +852,9 @@ func (t *translator) typeOf(e ast.Expr, ev *env) string {
 		if c, ok := t.a.cells[xt]; ok {
 			return c
 		}
+		if d, ok := t.a.wderefs[xt]; ok {
+			return d.typ
+		}
 		unsup(x, "dereference of a %s", xt)
 	case *ast.CallExpr:
 		if id, ok := x.Fun.(*ast.Ident); ok && id.Name == "len" && len(x.Args) == 1 {
@@ -1134,6 +1140,9 @@ func (t *translator) pure(e ast.Expr, ev *env, want string) string {
 		}
 		return "(" + get + " " + t.pure(x.X, ev, xt) + " " + t.pure(x.Index, ev, "") + ")"
 	case *ast.StarExpr:
+		if d, ok := t.a.wderefs[t.typeOfSafe(x.X, ev)]; ok {
+			return d.get
+		}
 		t.typeOf(x, ev) // a record pointer or a cell: *p is the value itself
 		return t.pure(x.X, ev, "")
 	case *ast.CallExpr:
@@ -1978,6 +1987,9 @@ func (t *translator) assign(x *ast.AssignStmt, ev *env, cont func(*env) string) 
 				unsup(x, "assignment through something that is not a variable")
 			}
 			v, isVar := ev.index[id.Name]
+			if d, isW := t.a.wderefs[v.typ]; isVar && isW {
+				return t.worldAppend(x, id.Name, d, ev, cont)
+			}
 			if !isVar || t.a.cells[v.typ] == "" {
 				unsup(x, "assignment through %s", id.Name)
 			}
@@ -3187,6 +3199,7 @@ func main() {
 			}
 			t.dir = filepath.Dir(filepath.Join(*repo, fs.file))
 			t.function(fd, fs)
+			t.auditFresh(fd.Name.Name)
 			done = append(done, fs.name)
 		}
 		var b strings.Builder
